@@ -357,7 +357,7 @@ class Ctx(object):
 
     ambient_on = None
     AMBIENT = {0: ('indexing.by', 'position', "an option about how [] indexes"),
-               1: ('align.join', 'inner', "an option the library never reads: the join is what the call says, or outer")}
+               1: ('align.join', 'inner', "the join is the one the call asks for, outer by default: the library has never read this option")}
 
     def v(self, prop, key, msg):
         if self.ambient_on:
